@@ -1,7 +1,7 @@
 (* C15 - validation reports exactly the schema violations present in the file.
    Model: Model/Validate.v (walker + eight stock validators), compared with ValidateFile on every run. *)
 From Coq Require Import String List ZArith Bool.
-From HV Require Import Base.Pos Model.Schema Model.Ast Model.Merge Model.Validate Proofs.ValidateProofs.
+From HV Require Import Base.Pos Model.Schema Model.Ast Model.Merge Model.Validate Proofs.ValidateProofs Proofs.ValidateCounts.
 
 (* Inside a block whose dependent body could not be resolved, nothing is reported as unexpected -
    at any nesting depth below it. *)
@@ -39,3 +39,26 @@ Theorem C15_subject_on_offending_item : forall b u s d,
   In d (walk_body u s b) -> In (d_subject d) (item_ranges b).
 Proof. exact walk_subjects_are_item_ranges. Qed.
 Print Assumptions C15_subject_on_offending_item.
+
+(* Exactly one 'unexpected' error per attribute the effective schema does not know (none where the schema itself is
+   unknown), none for an attribute it knows. *)
+Theorem C15_one_unexpected_error_per_unknown_attribute : forall unknown s a,
+  count_kind KUnexpectedAttr (attr_diags unknown s a) =
+  match s with None => if unknown then 0 else 1 | Some _ => 0 end%nat.
+Proof. exact unexpected_attribute_count. Qed.
+Print Assumptions C15_one_unexpected_error_per_unknown_attribute.
+
+(* Per block: a block of a known type gets one error per surplus label, one 'not enough labels' error iff labels are
+   missing, and is never 'unexpected'; a block of an unknown type gets exactly one 'unexpected' error (none where the
+   schema is unknown). *)
+Theorem C15_block_errors_counted : forall unknown s k,
+  match s with
+  | Some sc =>
+      count_kind KUnexpectedBlock (block_diags unknown s k) = 0%nat /\
+      count_kind KNotEnoughLabels (block_diags unknown s k) = (if Nat.ltb (length (k_labels k)) (length (bk_labels sc)) then 1 else 0)%nat /\
+      count_kind KTooManyLabels (block_diags unknown s k) =
+        (length (firstn (length (k_labels k)) (k_label_rngs k)) - length (bk_labels sc))%nat
+  | None => count_kind KUnexpectedBlock (block_diags unknown s k) = (if unknown then 0 else 1)%nat
+  end.
+Proof. exact block_diag_counts. Qed.
+Print Assumptions C15_block_errors_counted.
